@@ -48,6 +48,15 @@ class LitT(ast.NodeTransformer):
                 ast.Call(ast.Name("_DIV", ast.Load()), [node.left, node.right], []), node)
         return node
 
+    def visit_Compare(self, node):
+        """`x.dtype == np.float64` (the wrappers' guards): a symbolic object array stands for a float64 array"""
+        self.generic_visit(node)
+        if (len(node.ops) == 1 and isinstance(node.ops[0], (ast.Eq, ast.NotEq)) and isinstance(node.left, ast.Attribute) and node.left.attr == "dtype"):
+            call = ast.Call(ast.Name("_DTEQ", ast.Load()), [node.left.value, node.comparators[0]], [])
+            new = call if isinstance(node.ops[0], ast.Eq) else ast.UnaryOp(ast.Not(), call)
+            return ast.copy_location(new, node)
+        return node
+
     def visit_AugAssign(self, node):
         self.generic_visit(node)
         return node
@@ -67,6 +76,18 @@ class LitT(ast.NodeTransformer):
         return out
 
     # do not rewrite literals inside default-argument-free type annotations / decorators: harmless.
+
+
+def _DTEQ(arr, dt):
+    import numpy as _n
+    d = arr.dtype
+    if d == _n.dtype(object):
+        try:
+            if _n.dtype(dt) == _n.dtype(_n.float64):
+                return True
+        except TypeError:
+            pass
+    return d == dt
 
 
 def _Q(txt):
@@ -104,7 +125,7 @@ class SymLoader(importlib.abc.Loader):
             src = f.read()
         LOADED_SOURCES[self.path] = hashlib.sha256(src.encode()).hexdigest()
         code = transform_source(src, self.path)
-        module.__dict__.update({"_Q": _Q, "_DIV": _DIV, "_NP": self.ctx.np})
+        module.__dict__.update({"_Q": _Q, "_DIV": _DIV, "_DTEQ": _DTEQ, "_NP": self.ctx.np})
         exec(code, module.__dict__)
         hook = self.ctx.post_hooks.get(module.__name__)
         if hook:
